@@ -154,7 +154,7 @@ def correspondence(ctx):
         cov, z1, z2 = np.array(gen._cov_sample), np.array(gen._z_1), np.array(gen._z_2)
         jobs.append((cov, z1, z2, pos))
         cases.append(dict(desc, mode_no=N, seed=seed, mean_velocity=mu, path=path, X=int(pos.shape[1]),
-                          out=np.asarray(out, dtype=float), var_used=float(gen.model.var), pos=pos, modes=(cov, z1, z2),
+                          out=np.asarray(out, dtype=float), var_used=float(gen.model.var), pos=pos,
                           shape_ok=(cov.shape == (dim, N) and z1.shape == (N,) and z2.shape == (N,)),
                           k2min=float((cov ** 2).sum(axis=0).min())))
     res = run_kernel(jobs)
@@ -164,7 +164,7 @@ def correspondence(ctx):
         got = c["out"]
         key = f"{c['model']}/{c['dim']}d/{c['path']}"
         dist[key] = dist.get(key, 0) + 1
-        pub = {k: v for k, v in c.items() if k not in ("out", "pos", "modes")}
+        pub = {k: v for k, v in c.items() if k not in ("out", "pos")}
         if not c["shape_ok"]:
             disagreements.append({"what": "generator mode arrays do not have shapes (dim,N),(N,),(N,)", "case": pub})
             continue
@@ -173,35 +173,19 @@ def correspondence(ctx):
         if same_bits(got, want):
             dist["bit-exact"] = dist.get("bit-exact", 0) + 1
             continue
-        # not bit-identical: only a last-bit effect inside the kernel is tolerated (the driver evaluates x**2 with
-        # libm pow, the .so with x*x; they differ by 1 ulp in rare cases) -- 8 eps x (sum of the absolute terms)
-        ok = got.shape == want.shape
-        err = None
-        if ok and got.size:
-            cov, z1, z2 = c["modes"]
-            k2 = (cov ** 2).sum(axis=0)
-            p = -cov * cov[0] / k2
-            p[0] += 1.0
-            fac = abs(c["mean_velocity"]) * math.sqrt(c["var_used"] / c["mode_no"])
-            scale = abs(c["mean_velocity"]) + fac * (np.abs(p) * (np.abs(z1) + np.abs(z2))).sum(axis=1)   # (dim,)
-            err = np.abs(got - want)
-            ok = bool(np.all(err <= 8 * EPS * scale[:, None]))
-            err = float(err.max())
-        if ok:
-            dist["within-8eps-of-term-sum"] = dist.get("within-8eps-of-term-sum", 0) + 1
-        else:
-            disagreements.append({"what": "IncomprRandMeth/SRF output differs from mean_u*e1 + mean_u*sqrt(var/N)*summate_incompr(model)",
-                                  "case": pub, "max_abs_err": err, "pos": c["pos"].tolist(),
-                                  "got": got.tolist(), "want": want.tolist()})
-    samples = [{k: v for k, v in c.items() if k not in ("out", "pos", "modes")} for c in cases[:3]]
+        # every operation of the glue and of the kernel is reproduced in the same order on IEEE doubles
+        # (the driver squares with x*x exactly like the compiled pow(x, 2.0)), so nothing but identity is accepted
+        err = float(np.max(np.abs(got - want))) if got.shape == want.shape and got.size else None
+        disagreements.append({"what": "IncomprRandMeth/SRF output differs from mean_u*e1 + mean_u*sqrt(var/N)*summate_incompr(model)",
+                              "case": pub, "max_abs_err": err, "pos": c["pos"].tolist(),
+                              "got": got.tolist(), "want": want.tolist()})
+    samples = [{k: v for k, v in c.items() if k not in ("out", "pos")} for c in cases[:3]]
     dist["skipped"] = skipped
     return {"evaluations": len(cases), "distinct_nontrivial": len(distinct),
             "rule": "all 17 model classes x dim 2/3 with random admissible parameters, mode_no in {1,2,3,7,32,random<160}, "
                     "random seeds, mean velocities {1,0,-2.5,0.3,random}, evaluated through IncomprRandMeth.__call__, "
                     "SRF(...)(pos) and SRF.structured; the generator's own _cov_sample/_z_1/_z_2 and the positions go through "
-                    "the generated Lean kernel on Float, the three-term glue is applied per element; comparison is bit-exact except for "
-                    "a last-bit allowance of 8 eps x (sum of absolute terms) because the driver squares with libm pow and the .so with x*x "
-                    "(counts of both kinds are in the distribution); "
+                    "the generated Lean kernel on Float, the three-term glue is applied per element, comparison is bit-exact; "
                     "distinct = distinct (class, dim, path, mode_no, #points) with non-zero mean velocity and fluctuation",
             "samples": samples, "disagreements": disagreements[:10], "distribution": dist}
 
